@@ -284,6 +284,19 @@ fn random_range_list(rng: &mut Rng, doc: &[u8], bounds: &[usize]) -> Vec<(usize,
 /// "Template" documents: a valid sentence cut at token boundaries into fragments, with junk between
 /// them; the ranges are exactly the fragments, so the concatenation is the original sentence.
 fn templated(rng: &mut Rng, text: &[u8], bounds: &[usize]) -> (Vec<u8>, Vec<(usize, usize)>) {
+    // (wave 9) one template in four starts with the SECOND token of the sentence (an operator, a keyword, a closing
+    // bracket …): an erroneous text whose repair happens at the very start — MISSING token or skipped token — and at
+    // range starts generally; such templates get leading / trailing EMPTY regions (`<%%>`) half of the time
+    let drop_first = bounds.len() >= 4 && bounds[2] < text.len() && rng.chance(1, 4);
+    let shifted: Vec<usize>;
+    let (text, bounds): (&[u8], &[usize]) = if drop_first {
+        let cut = bounds[2];
+        shifted = bounds[2..].iter().map(|b| b.saturating_sub(cut)).collect();
+        (&text[cut..], &shifted)
+    } else {
+        (text, bounds)
+    };
+    let empty_regions = if drop_first { rng.chance(1, 2) } else { rng.chance(1, 6) };
     let junk: [&[u8]; 12] = [b"<% x %>", b"###", b"\n", "é€".as_bytes(), b"<<>>", b" ", b"\n\n  ", b"}", b"\xff\xfe", b"0", "😀".as_bytes(), b"(("];
     // half of the templates keep every gap on one line (no newline in the junk): columns of the included
     // characters are then the same in the document and in the concatenation (column-sensitive scanners)
@@ -300,6 +313,13 @@ fn templated(rng: &mut Rng, text: &[u8], bounds: &[usize]) -> (Vec<u8>, Vec<(usi
     cuts.retain(|&c| c >= n || text[c] & 0xc0 != 0x80);
     let mut doc = Vec::new();
     let mut rs = Vec::new();
+    if empty_regions {
+        for _ in 0..rng.range(1, 2) {
+            doc.extend_from_slice(b"<%");
+            rs.push((doc.len(), doc.len()));
+            doc.extend_from_slice(if same_line { b"%>" } else { b"%>\n" });
+        }
+    }
     if rng.chance(1, 2) {
         doc.extend_from_slice(junk[rng.below(junk.len())]);
     }
@@ -310,6 +330,11 @@ fn templated(rng: &mut Rng, text: &[u8], bounds: &[usize]) -> (Vec<u8>, Vec<(usi
         if !rng.chance(1, 6) {
             doc.extend_from_slice(junk[rng.below(junk.len())]);
         }
+    }
+    if empty_regions && rng.chance(1, 2) {
+        doc.extend_from_slice(b"<%");
+        rs.push((doc.len(), doc.len()));
+        doc.extend_from_slice(b"%>");
     }
     if rs.is_empty() {
         rs.push((0, 0));
